@@ -407,7 +407,11 @@ func (u *Upstream) run(isResume bool) error {
 				u.mu.Lock()
 				u.upstreamChunkResultChs[chunk.StreamChunk.SequenceNumber] = resultCh
 				u.mu.Unlock()
-				u.sendChunkAndWaitAck(ctx, chunk, resultCh, func() {})
+				// written one after the other; the acknowledgements are awaited side by side (a chunk whose
+				// acknowledgement is slow, or never comes, must not keep the others from being sent again)
+				sent := make(chan struct{})
+				go u.sendChunkAndWaitAck(ctx, chunk, resultCh, func() { close(sent) })
+				<-sent
 				u.logger.Debugf(u.ctx, "Resent data point groups[seqNum=%v, count=%v].", seqNum, len(dpg))
 			}
 			return nil
